@@ -112,6 +112,9 @@ func c16Preds() []string {
 }
 
 func runC16(c *rt.Ctx) {
+	// released zngio buffers are overwritten (H1): lake code that keeps using a
+	// value after the reader has moved on reads garbage deterministically
+	verifhook.SetPoison(true)
 	c.Note("rule", "exhaustive part: every predicate up to depth 2 over atoms {k op c, c op k}, op ∈ {==,!=,<,<=,>,>=}, c ∈ {null,1,2,3,2.,2.5,\"a\",\"b\"} (quick: all atoms, all negations, all atom∘non-key conjuncts, a seeded tenth of the pairs; thorough: all) against one pool that holds an object for every [min,max] pair over the key domain {1,2,2.,2.5,3,\"a\",\"b\",null,null(int64),missing}, asc and desc, seek stride 1 B and default; random part: random pools × random predicates; for each predicate the pruned lake query (and, on a scratch branch, delete -where) is compared with a plain in-memory `where` over all pool values; a case is a batch of predicates on one freshly built pool; evaluations = predicates checked; non-trivial = predicate for which ≥1 object was pruned by its key range")
 	c.Note("assumptions", "reference semantics of a predicate = the sequential runtime's `where` over an in-memory reader (no lake)\npredicates the compiler rejects (e.g. `k < null`) are outside the claim and only counted")
 	preds := c16Preds()
